@@ -18,7 +18,7 @@ CONSTANT MaxFaults
 
 Pipes   == {"plain", "semgrep", "sast", "sast2"}
 Static  == {"badutf8", "badutf8comment", "nul", "syntax", "empty"}   \* badutf8comment: the undecodable byte sits in a trailing comment only
-Dynamic == {"vanish", "raise", "raiseAtNodeEarly", "raiseAtNodeMid", "raiseAtNodeLate"}   \* the j-th visited node: 2nd, 25th, the first one after a change was recorded
+Dynamic == {"vanish", "raise", "malformedTree", "raiseAtNodeEarly", "raiseAtNodeMid", "raiseAtNodeLate"}   \* malformedTree: the transformer returns a tree whose code cannot be generated;   \* the j-th visited node: 2nd, 25th, the first one after a change was recorded
 NF == 3
 NC == 2
 
